@@ -49,6 +49,10 @@ def network_ops_timeout() -> float:
     return get("bellows.ezsp", "NETWORK_OPS_TIMEOUT", 10.0, float, lo=0.5, hi=600)
 
 
+def network_up_timeout() -> float:
+    return get("bellows.zigbee.application", "NETWORK_UP_TIMEOUT_S", 10.0, float, lo=0.5, hi=600)
+
+
 def aps_ack_timeout() -> float:
     return get("bellows.zigbee.application", "APS_ACK_TIMEOUT", 120.0, float, lo=1, hi=3600)
 
